@@ -141,6 +141,29 @@ def run(ctx):
             if ctx.rng.random() < 0.15:
                 cases.append(text_case([lang.NOT, lang.STR], 'not ' + text))
                 cases.append(text_case([lang.LEAF0 + 1, lang.OR, lang.STR], 'role:r1 or ' + text))
+    # colon-less words carrying quote characters, next to each other: a quote never joins two words
+    for w1 in lang.QUOTEY:
+        for w2 in lang.QUOTEY:
+            for pre, ptext in (([], ''), ([lang.NOT], 'not '), ([lang.TRUE_TOK, lang.OR], '@ or '), ([lang.LEAF0 + 1, lang.AND], 'role:r1 and '),
+                               ([lang.NOT, lang.LP], 'not (')):
+                if q and ctx.rng.random() < 0.4:
+                    continue
+                toks = pre + [lang.BAD_TOK, lang.BAD_TOK] + ([lang.RP] if ptext.endswith('(') else [])
+                text = ptext + w1 + ctx.rng.choice([' ', '  ', '\t']) + w2 + (')' if ptext.endswith('(') else '')
+                cases.append(text_case(toks, text, ctx.rng.choice(['parse', 'parse', 'load', 'enforce'])))
+    n_text = len(cases)
+    # list rules whose members are not kind:match (the empty string, constant signs glued together,
+    # keywords, parentheses - nothing is tokenized inside a list member): each behaves as '!'
+    B, L1, TT = lang.BAD_TOK, lang.LEAF0 + 1, lang.TRUE_TOK
+    for w in ['', '!@', '@!', '@@', '!!', 'nocolon', "'", '"', '(', ')', 'not', 'and', 'or', "''", '""', "'x'"]:
+        for outer in ([[B]], [[TT, B]], [[B, TT]], [[B], [TT]], [[L1], [B]], [[B, L1]], [[B], [B]], [[L1, B], [L1]]):
+            if q and ctx.rng.random() < 0.35:
+                continue
+            val = [[(w if t == B else lang.core_text(t)) for t in inner] for inner in outer]
+            if len(val[0]) == 1 and ctx.rng.random() < 0.5:
+                val[0] = val[0][0]
+            c = pc.record_list(outer, val, ctx.rng.choice(['parse', 'load', 'enforce']), 'c02')
+            cases.append(c)
     n_text = len(cases)
     # non-string rule values
     for vclass, v in VALUES:
